@@ -63,7 +63,9 @@ def scenario_from_case(i, engine, n, case, M, stage2_at, short=None, batches=Non
     sc = dpgen.scenario("%s-acc-%d-%s-%05d" % (engine, M, stage2_at[:1], i), engine,
                         [dpgen.src("s1", n, batches or [n], gated=False)], dests, procs, 0, 0,
                         [{"do": "Settle"}], dlq_cfg={"gated": False})
-    sc["features"] = sorted(set(dpgen.features_of(sc)) | {"accounting"})
+    # every failure here is scripted and observable (a processor's error result, a destination's rejection): a record
+    # is dead-lettered only for its own failure (DlqJustified)
+    sc["features"] = sorted(set(dpgen.features_of(sc)) | {"accounting", "dlq-justified"})
     sc["case"] = case
     return sc
 
@@ -157,6 +159,10 @@ def run(tier, seed):
     from checks import c04
     sizes = (5, 8) if tier == "quick" else (5, 6, 7, 8, 9, 12)
     chk.run(c04.hole_scenarios("v1", sizes) + c04.hole_scenarios("v2", sizes), name="holes")
+    # "(including conditions)": one batch through a conditional processor, every match mask, short answers, a condition
+    # that cannot be evaluated for one record
+    csz = (3, 4) if tier == "quick" else (3, 4, 5, 6)
+    chk.run(dpgen.cond_scenarios("v1", csz) + dpgen.cond_scenarios("v2", csz), name="cond-masks")
     chk.validate()
 
     def nontrivial(sc, tr):
